@@ -13,14 +13,92 @@ class Group:
                  expect_monitor=False, diff=True, notes=None, ext=None):
         self.file = file; self.functions = list(functions); self.setup = list(setup); self.omp = omp; self.fmode = fmode; self.stubs = list(stubs)
         self.bounds = bounds or {}; self.max_paths = max_paths; self.path_time = path_time; self.total_time = total_time
-        self.diff = diff; self.notes = notes or []; self.ext = ext or {}
+        self.diff = diff; self.notes = notes or []; self.ext = ext or {}; self.workers = None
 
 def load_known():
     p = os.path.join(VERIF, 'known_findings.json')
     if not os.path.exists(p): return []
     with open(p) as f: return json.load(f).get('findings', [])
 
+def run_group(pid, g, tier, seed, known, rep_dir):
+    """executed in a forked child: returns a picklable dict with everything run_check needs"""
+    out = {'harnesses': [], 'violations': [], 'inconclusive': [], 'known': [], 'functions': set(), 'stubs': set(), 'trans': set(), 'build': None, 'infra': [], 'samples': [],
+           'tot': {'paths': 0, 'steps': 0, 'nq': 0, 'tq': 0.0, 'obligations': 0, 'discharged': 0, 'witness_ok': 0, 'witness_bad': 0, 'diff_ok': 0, 'diff_bad': 0, 'setup_steps': 0, 'denoms': 0}}
+    tot = out['tot']
+    try:
+        ses = S.Session([g.file], omp=g.omp, fmode=g.fmode, stub_prefixes=g.stubs, ext=g.ext)
+        out['build'] = ses.build_info
+        for fn in g.setup: ses.setup(fn)
+        tot['setup_steps'] += ses.setup_steps
+        if g.setup and ses.I.outs.get('config_err') not in (None, 0):
+            out['infra'].append('%s: configuration rejected during set-up (%r): %s' % (g.file, ses.I.outs.get('config_err'), (ses.I.ext.get('errors') or ['?'])[-1][:300])); return out
+    except SystemExit: out['infra'].append('%s: build failed' % g.file); return out
+    except BaseException as ex:
+        out['infra'].append('%s: set-up failed: %s' % (g.file, traceback.format_exc()[-1500:])); return out
+    for fn in g.functions:
+        t0 = time.time()
+        paths, summ = ses.explore(fn, max_paths=g.max_paths, path_time=g.path_time, total_time=g.total_time, workers=g.workers)
+        h = {'harness': fn, 'file': 'harness/' + g.file, 'setup': g.setup, 'paths': summ['paths'], 'by_status': summ['by_status'], 'asserts': summ['asserts'],
+             'witnesses': summ['witnesses'], 'instructions': summ['steps'], 'queries': summ['nq'], 'solver_s': round(summ['tq'], 2), 'wall_s': round(time.time() - t0, 2),
+             'bounds': g.bounds, 'nonzero_divisor_assumptions': summ['denoms'], 'sqrt_generators': summ['gens'], 'arith': 'exact-real' if g.fmode == 'exact' else 'ieee-concrete'}
+        tot['paths'] += summ['paths']; tot['steps'] += summ['steps']; tot['nq'] += summ['nq']; tot['tq'] += summ['tq']; tot['denoms'] = max(tot['denoms'], summ['denoms'])
+        out['functions'].update(summ['called']); out['stubs'].update(summ['stubs']); out['trans'].update(summ['trans'])
+        nobl = sum(sum(v.values()) for v in summ['asserts'].values()); ndis = sum(v.get('unsat', 0) for v in summ['asserts'].values())
+        tot['obligations'] += nobl; tot['discharged'] += ndis
+        for lab, w in summ['witnesses'].items():
+            if w['sat'] > 0: tot['witness_ok'] += 1
+            else:
+                tot['witness_bad'] += 1; out['inconclusive'].append({'harness': fn, 'label': 'witness:' + lab, 'msg': 'vacuity witness not satisfiable/decided on any path'})
+        if not summ['witnesses'] and not any(p['status'] in ('ok', 'monitor') for p in paths):
+            out['inconclusive'].append({'harness': fn, 'label': 'reach', 'msg': 'no path reached the end of the harness'})
+        for inc in summ['inconclusive']:
+            inc = dict(inc); inc['harness'] = fn; out['inconclusive'].append(inc)
+        for p in paths[:3]:
+            for r in p.get('results', [])[:4]:
+                if len(out['samples']) < 6: out['samples'].append({'harness': fn, 'decisions': p['decisions'][:12], 'obligation': r['label'], 'kind': r['kind'], 'solver': r['status'], 'how': r.get('how')})
+        seen = set()
+        for v in summ['violations']:
+            key = (fn, v['label'])
+            if key in seen: continue
+            seen.add(key)
+            model = dict(v.get('model') or {})
+            if v.get('choices'): model.update(v['choices'])
+            kf = match_known(known, fn, v)
+            rp = os.path.join(rep_dir, '%s.%s.json' % (fn, hashlib.sha1(v['label'].encode()).hexdigest()[:8]))
+            conf = None
+            try: conf = RP.replay(g.file, g.setup + [fn], model, seed=seed, omp=g.omp)
+            except SystemExit: conf = {'error': 'native build failed'}
+            except BaseException as ex: conf = {'error': str(ex)[:500]}
+            reproduced = False
+            if conf and 'error' not in conf:
+                if v['label'].startswith('monitor:'): reproduced = bool(conf.get('crash'))
+                else: reproduced = v['label'] in conf.get('failed', []) or bool(conf.get('crash'))
+            rec = {'property': pid, 'harness': fn, 'file': 'harness/' + g.file, 'setup': g.setup, 'label': v['label'], 'msg': v.get('msg'), 'inputs': model,
+                   'decisions': v.get('decisions'), 'stack': v.get('stack'), 'native': conf, 'reproduced_natively': reproduced,
+                   'replay_cmd': './check %s --replay %s' % (pid, os.path.relpath(rp, VERIF))}
+            with open(rp, 'w') as f: json.dump(rec, f, indent=1, default=str)
+            rec['replay'] = rp
+            if kf is not None and kf.get('status') == 'known':
+                out['known'].append({'harness': fn, 'label': v['label'], 'text': kf.get('text', ''), 'reproduced_natively': reproduced})
+            elif reproduced: out['violations'].append(rec)
+            else:
+                out['inconclusive'].append({'harness': fn, 'label': v['label'], 'msg': 'solver model did not reproduce natively (encoding error?)', 'replay': rp, 'native': str(conf)[:600]})
+        if g.diff:
+            K = 2 if tier == 'quick' else 6
+            try:
+                ok, bad, dsamples = differential(ses, g, fn, K, seed)
+                tot['diff_ok'] += ok; tot['diff_bad'] += len(bad)
+                h['differential'] = {'runs': ok + len(bad), 'agree': ok}
+                for b in bad: out['inconclusive'].append({'harness': fn, 'label': 'differential', 'msg': 'interpreter and native build disagree on concrete inputs: %s' % (b,)})
+            except SystemExit: out['infra'].append('%s: native build failed' % fn)
+            except BaseException as ex:
+                out['infra'].append('%s: differential run failed: %s' % (fn, traceback.format_exc()[-800:]))
+        out['harnesses'].append(h)
+        sys.stderr.write('[%s] %s: %d paths %s, %d/%d obligations unsat, %.1fs\n' % (pid, fn, summ['paths'], summ['by_status'], ndis, nobl, time.time() - t0))
+    return out
+
 def run_check(pid, groups, tier, level_text, assumptions, outside_claim, technique):
+    import pickle
     t_start = time.time()
     seed = int(os.environ.get('VERIF_SEED', '1') or 1)
     known = [k for k in load_known() if k.get('property') == pid]
@@ -28,81 +106,51 @@ def run_check(pid, groups, tier, level_text, assumptions, outside_claim, techniq
     rep_dir = os.path.join(VERIF, 'replays', pid); os.makedirs(rep_dir, exist_ok=True)
     ev = {'harnesses': [], 'violations': [], 'inconclusive': [], 'known': [], 'functions': set(), 'stubs': set(), 'trans': set(), 'build': None}
     tot = {'paths': 0, 'steps': 0, 'nq': 0, 'tq': 0.0, 'obligations': 0, 'discharged': 0, 'witness_ok': 0, 'witness_bad': 0, 'diff_ok': 0, 'diff_bad': 0, 'setup_steps': 0, 'denoms': 0}
-    samples = []
-    infra = []
+    samples = []; infra = []
+    # build everything once in the parent (children then only hit the cache)
+    try:
+        build.build_module(sorted(set(g.file for g in groups if not g.omp)))
+        if any(g.omp for g in groups): build.build_module(sorted(set(g.file for g in groups if g.omp)), omp=True)
+        if any(g.diff for g in groups):
+            build.native_lib(False)
+            for f in sorted(set(g.file for g in groups if not g.omp)): build.native_harness(f, False)
+    except SystemExit:
+        infra.append('build failed')
+    npar = max(1, min(len(groups), int(os.environ.get('VERIF_GROUP_PAR', '6'))))
     for g in groups:
-        try:
-            ses = S.Session([g.file], omp=g.omp, fmode=g.fmode, stub_prefixes=g.stubs, ext=g.ext)
-            ev['build'] = ses.build_info
-            for fn in g.setup: ses.setup(fn)
-            tot['setup_steps'] += ses.setup_steps
-        except SystemExit: raise
-        except BaseException as ex:
-            infra.append('%s: set-up failed: %s' % (g.file, traceback.format_exc()[-1500:])); continue
-        for fn in g.functions:
-            t0 = time.time()
-            paths, summ = ses.explore(fn, max_paths=g.max_paths, path_time=g.path_time, total_time=g.total_time)
-            h = {'harness': fn, 'file': 'harness/' + g.file, 'setup': g.setup, 'paths': summ['paths'], 'by_status': summ['by_status'], 'asserts': summ['asserts'],
-                 'witnesses': summ['witnesses'], 'instructions': summ['steps'], 'queries': summ['nq'], 'solver_s': round(summ['tq'], 2), 'wall_s': round(time.time() - t0, 2),
-                 'bounds': g.bounds, 'nonzero_divisor_assumptions': summ['denoms'], 'sqrt_generators': summ['gens'], 'arith': 'exact-real' if g.fmode == 'exact' else 'ieee-concrete'}
-            tot['paths'] += summ['paths']; tot['steps'] += summ['steps']; tot['nq'] += summ['nq']; tot['tq'] += summ['tq']; tot['denoms'] += summ['denoms']
-            ev['functions'].update(summ['called']); ev['stubs'].update(summ['stubs']); ev['trans'].update(summ['trans'])
-            nobl = sum(sum(v.values()) for v in summ['asserts'].values()); ndis = sum(v.get('unsat', 0) for v in summ['asserts'].values())
-            tot['obligations'] += nobl; tot['discharged'] += ndis
-            for lab, w in summ['witnesses'].items():
-                if w['sat'] > 0: tot['witness_ok'] += 1
-                else:
-                    tot['witness_bad'] += 1; ev['inconclusive'].append({'harness': fn, 'label': 'witness:' + lab, 'msg': 'vacuity witness not satisfiable/decided on any path'})
-            if not summ['witnesses'] and not any(p['status'] in ('ok', 'monitor') for p in paths):
-                ev['inconclusive'].append({'harness': fn, 'label': 'reach', 'msg': 'no path reached the end of the harness'})
-            for inc in summ['inconclusive']:
-                inc = dict(inc); inc['harness'] = fn; ev['inconclusive'].append(inc)
-            # sample obligations for the evidence file
-            for p in paths[:3]:
-                for r in p.get('results', [])[:4]:
-                    if len(samples) < 12: samples.append({'harness': fn, 'decisions': p['decisions'][:12], 'obligation': r['label'], 'kind': r['kind'], 'solver': r['status'], 'how': r.get('how')})
-            # violations: confirm natively
-            seen = set()
-            for v in summ['violations']:
-                key = (fn, v['label'])
-                if key in seen: continue
-                seen.add(key)
-                model = dict(v.get('model') or {})
-                if v.get('choices'): model.update(v['choices'])
-                kf = match_known(known, fn, v)
-                rp = os.path.join(rep_dir, '%s.%s.json' % (fn, hashlib.sha1(v['label'].encode()).hexdigest()[:8]))
-                conf = None
-                try:
-                    conf = RP.replay(g.file, g.setup + [fn], model, seed=seed, omp=g.omp)
-                except SystemExit: conf = {'error': 'native build failed'}
-                except BaseException as ex: conf = {'error': str(ex)[:500]}
-                reproduced = False
-                if conf and 'error' not in conf:
-                    if v['label'].startswith('monitor:'): reproduced = bool(conf.get('crash'))
-                    else: reproduced = v['label'] in conf.get('failed', []) or bool(conf.get('crash'))
-                rec = {'property': pid, 'harness': fn, 'file': 'harness/' + g.file, 'setup': g.setup, 'label': v['label'], 'msg': v.get('msg'), 'inputs': model,
-                       'decisions': v.get('decisions'), 'stack': v.get('stack'), 'native': conf, 'reproduced_natively': reproduced,
-                       'replay_cmd': './check %s --replay %s' % (pid, os.path.relpath(rp, VERIF))}
-                with open(rp, 'w') as f: json.dump(rec, f, indent=1, default=str)
-                rec['replay'] = rp
-                if kf is not None and kf.get('status') == 'known':
-                    ev['known'].append({'harness': fn, 'label': v['label'], 'text': kf.get('text', ''), 'reproduced_natively': reproduced})
-                elif reproduced: ev['violations'].append(rec)
-                else:
-                    ev['inconclusive'].append({'harness': fn, 'label': v['label'], 'msg': 'solver model did not reproduce natively (encoding error?)', 'replay': rp, 'native': conf})
-            # differential validation of the encoder on concrete inputs
-            if g.diff:
-                K = 2 if tier == 'quick' else 6
-                try:
-                    ok, bad, dsamples = differential(ses, g, fn, K, seed)
-                    tot['diff_ok'] += ok; tot['diff_bad'] += len(bad)
-                    h['differential'] = {'runs': ok + len(bad), 'agree': ok}
-                    for b in bad: ev['inconclusive'].append({'harness': fn, 'label': 'differential', 'msg': 'interpreter and native build disagree on concrete inputs: %s' % (b,)})
-                except SystemExit: infra.append('%s: native build failed' % fn)
-                except BaseException as ex:
-                    infra.append('%s: differential run failed: %s' % (fn, traceback.format_exc()[-800:]))
-            ev['harnesses'].append(h)
-            sys.stderr.write('[%s] %s: %d paths %s, %d/%d obligations unsat, %.1fs\n' % (pid, fn, summ['paths'], summ['by_status'], ndis, nobl, time.time() - t0))
+        if getattr(g, 'workers', None) is None: g.workers = max(2, 16 // npar)
+    pending = list(enumerate(groups)); running = {}; results = {}
+    while (pending or running) and not infra:
+        while pending and len(running) < npar:
+            gi, g = pending.pop(0)
+            r, w = os.pipe(); cpid = os.fork()
+            if cpid == 0:
+                os.close(r)
+                try: data = pickle.dumps(run_group(pid, g, tier, seed, known, rep_dir))
+                except BaseException as ex: data = pickle.dumps({'infra': ['%s: group runner failed: %s' % (g.file, traceback.format_exc()[-1500:])]})
+                with os.fdopen(w, 'wb') as f: f.write(data)
+                os._exit(0)
+            os.close(w); running[r] = (cpid, gi, bytearray())
+        import select
+        rl, _, _ = select.select(list(running), [], [], 1.0)
+        for fd in rl:
+            chunk = os.read(fd, 1 << 20)
+            if chunk: running[fd][2].extend(chunk); continue
+            cpid, gi, buf = running.pop(fd); os.close(fd); os.waitpid(cpid, 0)
+            try: results[gi] = pickle.loads(bytes(buf))
+            except Exception: results[gi] = {'infra': ['group %d died without a result' % gi]}
+    for gi in sorted(results):
+        o = results[gi]
+        infra += o.get('infra', [])
+        if 'tot' not in o: continue
+        for k in tot:
+            if k == 'denoms': tot[k] = max(tot[k], o['tot'][k])
+            else: tot[k] += o['tot'][k]
+        for k in ('harnesses', 'violations', 'inconclusive', 'known'): ev[k] += o[k]
+        for k in ('functions', 'stubs', 'trans'): ev[k].update(o[k])
+        if o.get('build'): ev['build'] = o['build']
+        samples += o['samples']
+    samples = samples[:14]
     wall = time.time() - t_start
     nviol = len(ev['violations'])
     evidence = {
@@ -123,7 +171,7 @@ def run_check(pid, groups, tier, level_text, assumptions, outside_claim, techniq
             'checker_cmd': './check %s --tier %s' % (pid, tier),
             'trusted_base': ['clang-14 / LLVM DataLayout', 'tools/irdump.cpp', 'cvsym interpreter + exact-real domain (cvsym/*.py)', 'z3 5.1', 'support/*.cpp shims (libstdc++ out-of-line parts)'],
         },
-        'assumptions': assumptions + (['every executed division by a symbolic real has a non-zero divisor (%d such assumptions on the largest path): singular geometries are outside the claim' % tot['denoms']] if tot['denoms'] else []),
+        'assumptions': assumptions + (['every executed division by a symbolic real has a non-zero divisor (up to %d such assumptions per path): singular geometries are outside the claim' % tot['denoms']] if tot['denoms'] else []),
         'wall_s': round(wall, 2), 'violations': nviol,
     }
     with open(os.path.join(VERIF, 'evidence', pid + '.json'), 'w') as f: json.dump(evidence, f, indent=1, default=str)
@@ -173,7 +221,8 @@ def differential(ses, g, fn, K, seed):
         os.waitpid(pid, 0)
         try: res = json.loads(data.decode())
         except Exception: res = {'status': 'internal', 'msg': 'no result', 'outs': {}}
-        if res['status'] == 'vacuous' and nat['rc'] == 3: ok += 1; continue      # assumption false on this input, both sides agree
+        if res['status'] == 'vacuous' and nat.get('assume_false'): ok += 1; continue
+        if nat.get('assume_false') and not nat['crash']: ok += 1; continue      # assumption false natively (rounding): nothing to compare      # assumption false on this input, both sides agree
         if res['status'] == 'monitor' and nat['crash']: ok += 1; continue
         if res['status'] != 'ok' or nat['crash']:
             bad.append({'seed': sd, 'interp': res['status'], 'msg': (res['msg'] or '')[:200], 'native_rc': nat['rc'], 'native_crash': nat['crash'], 'stderr': nat['stderr'][-300:]}); continue
